@@ -2,6 +2,7 @@ SPECIFICATION FairSpec
 CONSTANTS
   Kinds = {"d", "ad", "r", "adc"}
   MaxLen = 2
+  Hooks = {"none", "hw"}
   FaultModes = {"ew"}
 ACTION_CONSTRAINT StartWhenPolled
 INVARIANT TypeOK
